@@ -402,7 +402,10 @@ func crashFailure(bin, prop, out, tail string) (failure, bool) {
 		return failure{RunIndex: cur.RunIndex, Scenario: cur.Scenario, Violation: violation{Prop: prop, Rule: "node-wedged", Sig: "node-wedged " + where,
 			Detail: "the run stood still until the watchdog fired: " + strings.TrimPrefix(line, "WATCHDOG-WEDGE: ") + " (replaying re-executes the scenario and waits for the watchdog again)"}}, true
 	}
-	if prop != "C20" {
+	// A Go panic of node code (on a background goroutine: the sequencer, the retry loop, a watch) ends a real
+	// node; for every property that is a failure of the node under the workload at hand. A panic whose
+	// innermost non-runtime frame is the harness' own stays an infrastructure error.
+	if prop != "C20" && !panicInNodeCode(tail) {
 		return failure{}, false
 	}
 	if !(strings.Contains(tail, "panic:") || strings.Contains(tail, "fatal error:") || strings.Contains(tail, "goroutine ")) || !strings.Contains(tail, "github.com/kubewharf/kubebrain/") {
@@ -447,6 +450,47 @@ func crashFailure(bin, prop, out, tail string) (failure, bool) {
 	}
 	return failure{Violation: violation{Prop: prop, Rule: "process-crash", Sig: "process-crash at=" + where, Detail: fmt.Sprintf("the node process died: %s at %s", first, where)},
 		Scenario: cur.Scenario, RunIndex: cur.RunIndex}, true
+}
+
+// panicInNodeCode: the text holds a Go panic whose first frame outside the runtime belongs to the repository
+// or to a library it called (not to verif/sim, and not to the testing package).
+func panicInNodeCode(tail string) bool {
+	i := strings.Index(tail, "\npanic: ")
+	if i < 0 {
+		if !strings.HasPrefix(tail, "panic: ") {
+			return false
+		}
+		i = 0
+	}
+	rest := tail[i:]
+	j := strings.Index(rest, "\ngoroutine ")
+	if j < 0 {
+		return false
+	}
+	lines := strings.Split(rest[j+1:], "\n")
+	sawRepo := false
+	first := ""
+	for _, l := range lines[1:] {
+		if l == "" {
+			break
+		}
+		if strings.HasPrefix(l, "\t") || strings.HasPrefix(l, "created by ") {
+			continue
+		}
+		if strings.HasPrefix(l, "runtime.") || strings.HasPrefix(l, "panic(") || strings.HasPrefix(l, "runtime/") {
+			continue
+		}
+		if first == "" {
+			first = l
+		}
+		if strings.Contains(l, "github.com/kubewharf/kubebrain/") {
+			sawRepo = true
+		}
+	}
+	if first == "" || strings.HasPrefix(first, "verif/sim") || strings.HasPrefix(first, "testing.") {
+		return false
+	}
+	return sawRepo || strings.Contains(rest, "github.com/kubewharf/kubebrain/")
 }
 
 func sanitize(s string) string {
